@@ -32,3 +32,24 @@ pub fn from_alphabet(alpha: &'static str, min: usize, max: usize) -> BoxedStrate
     let chars: Vec<char> = alpha.chars().collect();
     vec(any::<u16>(), min..=max).prop_map(move |ix| ix.into_iter().map(|i| chars[crate::engine::util::pick_idx(i, chars.len())]).collect()).boxed()
 }
+
+/// Long ASCII strings (letters, digits, blanks) generated from a seed: lengths around 4 KiB, 8 KiB and 64 KiB - where a reader
+/// that looks at its input in pieces changes from one piece to the next - and free lengths up to 20 000.
+pub fn long_ascii() -> BoxedStrategy<String> {
+    (prop_oneof![3 => 4080usize..4110, 1 => 8180usize..8200, 1 => 1000usize..20_000, 1 => 65_530usize..65_540], any::<u64>())
+        .prop_map(|(n, seed)| {
+            let alpha = b"abcdefghijklmnopqrstuvwxyzABCDEFGHIJKLMNOPQRSTUVWXYZ0123456789 _-";
+            let mut x = seed;
+            let mut s = String::with_capacity(n);
+            while s.len() < n {
+                x = crate::engine::util::splitmix64(x);
+                for k in 0..8 {
+                    if s.len() < n {
+                        s.push(alpha[((x >> (8 * k)) & 0xff) as usize % alpha.len()] as char);
+                    }
+                }
+            }
+            s
+        })
+        .boxed()
+}
